@@ -303,4 +303,45 @@ example : Spec.boundOKIv 400 1 20 [(0, 10), (0, 12), (0, 11)] = false ∧
     Spec.boundOKIv 400 1 0 [(0, 10), (10, 40), (40, 75), (75, 110)] = false ∧
     Spec.boundOKIv 400 1 0 [(0, 10), (0, 412), (0, 811), (10, 1215)] = true := by decide
 
+/-- **C18.4** `handler_one_start_per_token` — the executions are what `taskHandleHookRun` starts:
+for every list of queued `HookRun` tasks of a hook — of ANY kind (onStartup, schedule, kubernetes
+event, Synchronization) and whatever the way their hook processes end (exit 0, exit code, killed by
+a signal) — the process starts are exactly the grants of the hook's limiter at the moments the
+handlers were entered: every task waits, one token starts one process. (Synchronizations of
+bindings with `executeHookOnSynchronization: false` spend a token and start nothing:
+`handler_starts_sublist`.) -/
+theorem handler_one_start_per_token (l : Lim) (s : LState) (tks : List HookRunTask)
+    (hrun : ∀ tk ∈ tks, ¬ (tk.kind = .synchronization ∧ tk.runOnSync = false)) :
+    runTasks l s tks = grants l s (tks.map (·.t)) := runTasks_eq_grants l s tks hrun
+
+theorem handler_starts_sublist (l : Lim) (s : LState) (tks : List HookRunTask) :
+    (runTasks l s tks).Sublist (grants l s (tks.map (·.t))) := runTasks_sublist l s tks
+
+/-- **C18 at the task handler**: the number of hook processes STARTED for the queued tasks of a hook
+with `executionMinInterval = I`, `executionBurst = B` in any window `(t, t+T]` is at most `B + ⌈T/I⌉`
+— for every mix of task kinds (a start-up burst of Synchronizations included), every outcome of the
+processes (retries of killed or failed hooks are new tasks of the list) and every arrival pattern. -/
+theorem handler_bound (l : Lim) (hinf : l.inf = false) (hI : 0 < l.I) (hB : 1 ≤ l.B)
+    (tks : List HookRunTask) (hsorted : (tks.map (·.t)).Pairwise (· ≤ ·)) (h0 : ∀ u ∈ tks.map (·.t), 0 ≤ u)
+    (t T : Int) (hT : 0 ≤ T) :
+    (Spec.countIn (runTasks l (init l) tks) t T : Int) ≤ l.B + ceilDiv T l.I := by
+  have h1 := countIn_sublist (runTasks_sublist l (init l) tks) t T
+  have h2 := token_bucket_bound l hinf hI hB (tks.map (·.t)) hsorted h0 t T hT
+  have : (Spec.countIn (runTasks l (init l) tks) t T : Int)
+      ≤ (Spec.countIn (grants l (init l) (tks.map (·.t))) t T : Int) := by exact_mod_cast h1
+  omega
+
+/-- Non-vacuity. `I = 10`, `B = 1`: four Synchronization tasks queued at start-up (one of the
+processes dies from a signal, one binding is not executed on Synchronization) start at 0, 10 and 30;
+and what the interval oracle says about the two traces the fourth-wave variants produced
+(Synchronizations that do not wait: `I = 700 ms`, `B = 1`, four starts 44 ms apart one after the
+other in the main queue; a killed hook started again at once: `I = 400 ms`, `B = 2`, four starts
+within 44 ms): rejected. -/
+example :
+    let l := createRateLimiter (some (10, 1))
+    runTasks l (init l) [⟨.synchronization, 0, .ok, true⟩, ⟨.synchronization, 0, .signal, true⟩,
+      ⟨.synchronization, 0, .ok, false⟩, ⟨.synchronization, 0, .exitCode, true⟩] = [0, 10, 30] ∧
+    Spec.boundOKIv 700 1 0 [(0, 914), (914, 930), (930, 938), (938, 958)] = false ∧
+    Spec.boundOKIv 400 2 0 [(0, 4), (4, 10), (10, 37), (37, 43)] = false := by decide
+
 end ShellOp.RateLimit.C18
